@@ -251,6 +251,16 @@ func runC05(t *testing.T, c *c05Case) (out c05Outcome) {
 		if complete {
 			out.labels = append(out.labels, "completed")
 		}
+		if out.violation == "" && !complete && len(c.FaultC2S)+len(c.FaultS2C) == 0 {
+			// A relay that never dropped or delayed anything gives the
+			// connection no reason to fail: the streams must arrive whole.
+			var errs []string
+			for i, s := range sides {
+				errs = append(errs, fmt.Sprintf("%s: read %d bytes (err %v), wrote %d of %d records (err %v)",
+					[]string{"client", "server"}[i], len(s.read), s.rerr, len(s.wrote), len(s.offered), s.werr))
+			}
+			out.violation = "the transfer did not complete on a relay that applied no fault at all: " + strings.Join(errs, "; ")
+		}
 		var plains [][]byte
 		for _, s := range sides {
 			plains = append(plains, s.offered...)
@@ -336,6 +346,21 @@ func genC05(t *rapid.T) *c05Case {
 	wg := rapid.OneOf(rapid.IntRange(1, 400), rapid.IntRange(1, 20000), rapid.SampledFrom([]int{32767, 32768, 32769, 65535}))
 	c.C2S = rapid.SliceOfN(wg, 0, 8).Draw(t, "c2s")
 	c.S2C = rapid.SliceOfN(wg, 0, 8).Draw(t, "s2c")
+	// a long-lived connection: more than 500 writes in one direction (the
+	// cipher keys rotate every 500 records), small ones so that the volume
+	// stays modest
+	if rapid.IntRange(0, 11).Draw(t, "long_lived") == 0 {
+		n := rapid.SampledFrom([]int{501, 520, 1005}).Draw(t, "many")
+		small := make([]int, n)
+		for i := range small {
+			small[i] = 1 + (i*7)%23
+		}
+		if rapid.Bool().Draw(t, "long_dir") {
+			c.C2S = small
+		} else {
+			c.S2C = small
+		}
+	}
 	c.FaultC2S = genRelayScript(t, "f_c2s", 80)
 	c.FaultS2C = genRelayScript(t, "f_s2c", 80)
 	c.LatMs = rapid.SampledFrom([]int{0, 1, 50, 200}).Draw(t, "lat")
@@ -368,6 +393,9 @@ func TestC05EndToEnd(t *testing.T) {
 		o := runC05(t, c)
 		if c.KK {
 			o.labels = append(o.labels, "kk")
+		}
+		if len(c.C2S) > 500 || len(c.S2C) > 500 {
+			o.labels = append(o.labels, "more_than_500_writes_in_one_direction")
 		}
 		if len(c.C2S) > 0 && len(c.S2C) > 0 {
 			o.labels = append(o.labels, "bidirectional")
